@@ -6,6 +6,7 @@ import (
 	"encoding/json"
 	"flag"
 	"fmt"
+	"math/big"
 	"os"
 	"path/filepath"
 	"sort"
@@ -42,6 +43,14 @@ func (r *Rng) Fork() *Rng { return NewRng(r.U64()) }
 
 // Coq term emitters (N scope).
 func N(v uint64) string { return fmt.Sprintf("%d", v) }
+// BigN prints a natural number for N scope: decimal below 2^16, hexadecimal numeral above.
+func BigN(v *big.Int) string {
+	if v.BitLen() <= 16 {
+		return v.String()
+	}
+	return "0x" + v.Text(16)
+}
+
 func Bool(b bool) string {
 	if b {
 		return "true"
